@@ -175,6 +175,31 @@ def cells():
             out.append(("postcondition-param/%s/%s" % (name, kind), ("call", "TypeError"),
                         [("definition", lambda _, mk=mk_post: mk()), ("call", lambda f, k=kind: call(f, k, 1))]))
 
+            # the same with a precondition that is violated / raises / above or below the postcondition: the misuse is
+            # rejected (TypeError) before any condition of the call is judged
+            for how in ("violated-below", "violated-above", "raising", "violated-with-error-class"):
+                def mk_both(name=name, kind=kind, how=how):
+                    def boom():
+                        raise KeyError("the precondition was evaluated")
+                    pre = {"violated-below": icontract.require(lambda: False), "violated-above": icontract.require(lambda: False),
+                           "raising": icontract.require(boom),
+                           "violated-with-error-class": icontract.require(lambda: False, error=ValueError)}[how]
+                    post = icontract.ensure(lambda: True)
+                    if how == "violated-above":
+                        return pre(post(define(name, kind)))
+                    return post(pre(define(name, kind)))
+                out.append(("postcondition-param-with-precondition/%s/%s/%s" % (name, kind, how), ("call", "TypeError"),
+                            [("definition", lambda _, mk=mk_both: mk()), ("call", lambda f, k=kind: call(f, k, 1))]))
+
+                def mk_both_kw(kind=kind, how=how):
+                    pre = icontract.require(lambda: False, error=ValueError) if how == "violated-with-error-class" else \
+                        icontract.require(lambda: False)
+                    return icontract.ensure(lambda: True)(pre(define("x, **kwargs", kind)))
+                if how in ("violated-below", "violated-with-error-class"):
+                    out.append(("postcondition-keyword-with-precondition/%s/%s/%s" % (name, kind, how), ("call", "TypeError"),
+                                [("definition", lambda _, mk=mk_both_kw: mk()),
+                                 ("call", lambda f, k=kind, n=name: call(f, k, 1, **{n: 2}))]))
+
             def mk_pre(name=name, kind=kind):
                 return icontract.require(lambda: True)(define(name, kind))
             out.append(("twin:postcondition-param/%s/%s" % (name, kind), (None, None),
@@ -196,7 +221,18 @@ def cells():
     async def acond0():
         return True
 
-    inv_bad = {"other-parameter": lambda x: True, "self-and-other": lambda self, x: True, "coroutine-function": acond,
+    class _AsyncCallable:
+        async def __call__(self_, self):  # noqa
+            return True
+
+        async def method(self_, self):  # noqa
+            return True
+
+    import functools as _functools
+
+    inv_bad = {"coroutine-callable-object": _AsyncCallable(), "coroutine-bound-method": _AsyncCallable().method,
+               "coroutine-partial": _functools.partial(acond),
+               "other-parameter": lambda x: True, "self-and-other": lambda self, x: True, "coroutine-function": acond,
                "coroutine-function-no-self": acond0,
                # every parameter kind a condition can declare besides `self`
                "self-and-keyword-only": lambda self, *, limit: True, "keyword-only": lambda *, limit: True,
